@@ -118,6 +118,17 @@ func (api *HTTP) getMessages(ctx context.Context, lastSeen robust.Id, msgschan c
 			continue
 		}
 
+		// The batch which |lastSeen| points into was not available when this
+		// request started (this server applied it only afterwards), so its
+		// first messages, which the client has seen already, were not skipped
+		// above: skip them now.
+		if msgs[0].Id.Id == lastSeen.Id {
+			if int(lastSeen.Reply) >= len(msgs) {
+				continue
+			}
+			msgs = msgs[lastSeen.Reply:]
+		}
+
 		lastSeen = msgs[0].Id
 		select {
 		case <-ctx.Done():
